@@ -33,8 +33,56 @@ for path in files:
         found.append(name)
 out.append('')
 out.append('(* tables found: %s *)' % ' '.join(found))
-txt = '\n'.join(out) + '\n'
 path = os.path.join(ROOT, 'coq/Tables.v')
+print('tables:', len(found))
+
+# ---------------------------------------------------------------- constants other models rely on
+# (1) subnormal scale tables of include/universal/native/subnormal.hpp (used by cfloat/areal to_native):
+#     subnormal_reciprocal_shift[es] (ints) and subnormal_exponent[es] (doubles given as literals / named constant expressions).
+#     The double expressions are evaluated exactly (Fraction); an entry that is not an exact power of two is an error.
+# (2) the Veltkamp splitter of include/universal/numerics/error_free_ops.hpp (C13 theorems are stated for 2^27 + 1)
+from fractions import Fraction
+extra = ["", "(* constants re-extracted from native/subnormal.hpp and numerics/error_free_ops.hpp *)"]
+sub = re.sub(r'//[^\n]*', '', open(os.path.join(REPO, 'include/universal/native/subnormal.hpp')).read())
+names = {}
+def ev(expr):
+    toks = re.findall(r'[A-Za-z_]\w*|\d+\.?\d*(?:[eE][-+]?\d+)?|[*/()]', expr)
+    pos = [0]
+    def atom():
+        t = toks[pos[0]]; pos[0] += 1
+        if t == '(':
+            v = term(); pos[0] += 1; return v
+        if re.match(r'[A-Za-z_]', t):
+            return names[t]
+        return Fraction(t)
+    def term():
+        v = atom()
+        while pos[0] < len(toks) and toks[pos[0]] in '*/':
+            o = toks[pos[0]]; pos[0] += 1; w = atom(); v = v * w if o == '*' else v / w
+        return v
+    return term()
+for m in re.finditer(r'static\s+constexpr\s+double\s+(\w+)\s*=\s*([^;{]+);', sub):
+    names[m.group(1)] = ev(m.group(2))
+def log2_exact(q):
+    if q <= 0: return None
+    n, d = q.numerator, q.denominator
+    if n & (n - 1) or d & (d - 1): raise SystemExit('subnormal.hpp: %s is not a power of two' % q)
+    return n.bit_length() - 1 - (d.bit_length() - 1)
+m = re.search(r'subnormal_reciprocal_shift\[\]\s*=\s*\{(.*?)\}\s*;', sub, re.S)
+shifts = [int(t) for t in re.split(r'[\s,]+', m.group(1)) if t]
+m = re.search(r'subnormal_exponent\[\]\s*=\s*\{(.*?)\}\s*;', sub, re.S)
+exps = [log2_exact(ev(t)) for t in re.split(r'[\s,]+', m.group(1)) if t]
+if len(shifts) != 21 or len(exps) != 21:
+    raise SystemExit('subnormal.hpp: expected 21 entries, found %d / %d' % (len(shifts), len(exps)))
+extra.append('Definition tbl_subnormal_reciprocal_shift : list Z := [%s].' % '; '.join('(%d)' % v for v in shifts))
+extra.append('Definition tbl_subnormal_exponent_log2 : list (option Z) := [%s].' % '; '.join('None' if v is None else 'Some (%d)' % v for v in exps))
+eft = re.sub(r'//[^\n]*', '', open(os.path.join(REPO, 'include/universal/numerics/error_free_ops.hpp')).read())
+mb = re.search(r'constexpr\s+int\s+BITS\s*=\s*(\d+)\s*;', eft); ms = re.search(r'constexpr\s+double\s+SPLITTER\s*=\s*([\d.]+)\s*;', eft)
+if not mb or not ms or Fraction(ms.group(1)).denominator != 1:
+    raise SystemExit('error_free_ops.hpp: BITS / SPLITTER not found')
+extra.append('Definition src_split_bits : Z := %d.' % int(mb.group(1)))
+extra.append('Definition src_splitter : Z := %d.' % int(Fraction(ms.group(1))))
+txt = '\n'.join(out + extra) + '\n'
 if not os.path.exists(path) or open(path).read() != txt:
     open(path, 'w').write(txt)
-print('tables:', len(found))
+print('constants: subnormal tables (21 entries each), splitter')
